@@ -820,15 +820,26 @@ func checkCase(c Case) fw.Outcome {
 	if c.Mutation == nil {
 		out.Labels = append(out.Labels, "roundtrip")
 		out.NonTrivial = special && len(c.Data) > 0
+		// all three encodings of the tree first, the decoding afterwards: an encoding is the encoding of its tree for as
+		// long as it is held, whatever is encoded next
+		encs := make([][]byte, len(encNames))
+		asReturned := make([]string, len(encNames))
 		for i := range encNames {
-			var b []byte
 			var pan any
 			func() {
 				defer func() { pan = recover() }()
-				b = encode(i, res.MS, rootNode)
+				encs[i] = encode(i, res.MS, rootNode)
 			}()
 			if pan != nil {
 				out.Violation = fmt.Sprintf("%s encoder panicked: %v\ndata:\n%s\n%s", encNames[i], pan, wb.String(), src)
+				return out
+			}
+			asReturned[i] = string(encs[i])
+		}
+		for i := range encNames {
+			b := encs[i]
+			if string(b) != asReturned[i] {
+				out.Violation = fmt.Sprintf("the %s encoding changed while it was held (other encodings of the tree were made in between)\n--- as returned\n%s\n--- now\n%s\n%s", encNames[i], asReturned[i], b, src)
 				return out
 			}
 			for _, validate := range []bool{true, false} {
